@@ -15,15 +15,19 @@ reg('C01', engine='h_planners',
                '(start, bounds, goal/flag/status/difference agreement, dense invalid-stretch rule, strict checkMotion re-check)',
     technique='runtime monitoring: independent re-validation oracle over planner executions under ASan+UBSan')
 
-reg('C03', engine='h_planners', level='fault_enumeration',
-    rule='interruption part: one case = (planner, world, block of 16 consecutive k) with the termination condition first '
+reg('C03', engine='h_planners', extra_engines=['h_control'], level='fault_enumeration',
+    rule='(geometric and multilevel planners: engine h_planners; the eight control-planner variants: engine h_control, same '
+         'structure with k = 0..95 (thorough 0..383), a state- AND control-counting space and the step-wise replay oracle of C02 '
+         'on every registered path) interruption part: one case = (planner, world, block of 16 consecutive k) with the termination condition first '
          'firing at evaluation k for EVERY k in 0..63 (thorough: 0..511) plus a geometric sample up to the budget and '
          'K1-2..K1+2 around the calibrated first-solution evaluation K1, a fresh planner per k, every 4th k followed by a '
          'resumed solve; history part: one case = (planner, generated history of 2-8 calls over solve / solve(0) / clear / '
          'clearQuery / new problem definition / getPlannerData / new query); all under the C01 oracle, a state-counting '
          'space and ASan; non-trivial = block or history with >= 2 calls',
-    floors={'quick': {'c03_interrupted_solves': 8000, 'c03_resume_checks': 1500, 'leak_scopes_checked': 8000, 'c03_clear_checks': 60},
-            'thorough': {'c03_interrupted_solves': 30000}},
+    floors={'quick': {'c03_interrupted_solves': 8000, 'c03_resume_checks': 1500, 'leak_scopes_checked': 8000, 'c03_clear_checks': 60,
+                      'c03c_interrupted_solves': 600, 'c03c_resume_checks': 140, 'c03c_leak_scopes_checked': 600,
+                      'c03c_clear_checks': 14, 'c03c_histories': 26, 'c03c_paths_replayed': 750},
+            'thorough': {'c03_interrupted_solves': 30000, 'c03c_interrupted_solves': 3000, 'c03c_histories': 130}},
     hang_is_violation=True,
     case_timeout={'quick': 40, 'thorough': 180},
     level_text='fault enumeration over the evaluation index at which the termination condition first fires (exhaustive for '
@@ -41,17 +45,19 @@ reg('C04', engine='h_planners',
     level_text='stored cost vs harness-recomputed true cost, admissible bound, flag vs threshold, monotone best cost across '
                'continued solves, stated ranking order on planner output and synthetic multisets',
     technique='runtime monitoring: cost recomputation oracle + ranking order checker under ASan+UBSan')
-reg('C20', engine='h_planners', replicas={'quick': 2, 'thorough': 4},
+reg('C20', engine='h_planners', extra_engines=['h_control'], replicas={'quick': 2, 'thorough': 4},
     variants={'quick': ['asan', 'plain'], 'thorough': ['asan', 'plain', 'memcheck']},
     variant_scale={'memcheck': 0.025},   # valgrind: one world per planner + one RNG case
-    rule='one case = one fresh process that sets the global seed and then either runs one single-threaded planner on a '
+    rule='one case = one fresh process that sets the global seed and then either runs one single-threaded planner (geometric / '
+         'multilevel: engine h_planners; the eight control-planner variants on three dynamical systems: engine h_control) on a '
          'generated world under an evaluation-count condition (fingerprint = status, every solution path byte for byte, '
          'evaluation count) or draws tables from 6 generators + samplers (fingerprint per generator); every case is executed '
          'in 2 (thorough: 4) separate processes with different environment size / allocator settings and the fingerprints '
          'must be identical (odd replicas run with MALLOC_PERTURB_ and one arena; variants asan and plain -O2); the thorough '
          'tier also runs one world per planner under valgrind memcheck and keys every uninitialised-value / invalid-access '
          'report; non-trivial = planner run that produced a solution (or an RNG case)',
-    floors={'quick': {'c20_planner_runs_with_solution': 40, 'c20_fingerprints_compared': 300, 'c20_rng_cases': 4},
+    floors={'quick': {'c20_planner_runs_with_solution': 40, 'c20_fingerprints_compared': 300, 'c20_rng_cases': 4,
+                      'c20c_planner_runs_with_solution': 28},
             'thorough': {'c20_fingerprints_compared': 1500}},
     case_timeout={'quick': 900, 'thorough': 1800},
     level_text='byte-level comparison of RNG streams and planner results across separate processes started with the same seed',
